@@ -741,9 +741,11 @@ class Interp:
             head = dict(env)
             exits = []
             body_out = None
+            # the body runs an unknown number of times: every update inside is
+            # a weak one (appends summarise, stores join)
+            self.weak += 1
             if may_zero:
                 self.cond += 1
-                self.weak += 1
             try:
                 for rnd in range(SYM_ROUNDS + 1):
                     cur = dict(head)
@@ -770,9 +772,9 @@ class Interp:
                         new_head = self.widen(head, new_head, st)
                     head = new_head
             finally:
+                self.weak -= 1
                 if may_zero:
                     self.cond -= 1
-                    self.weak -= 1
             finals = list(exits)
             if body_out is not None:
                 finals.append(body_out)
